@@ -2,4 +2,5 @@
 SPECS = [
     ("C01_LIMIT_PACK_READ", "crates/core/src/blob.rs", r"const LIMIT_PACK_READ: u32 = ([^;]+);", "maximum length of one coalesced pack read"),
     ("C01_MAX_HOLESIZE", "crates/core/src/blob.rs", r"const MAX_HOLESIZE: u32 = ([^;]+);", "maximum hole between two blobs read in one go"),
+    ("C01_INDEXER_MAX_COUNT", "crates/core/src/index/indexer.rs", r"const MAX_COUNT: usize = ([^;]+);", "number of blobs after which the indexer saves its index file"),
 ]
